@@ -93,7 +93,8 @@ def unescape_tla(s):
 
 
 def run_mc(module, constants, invariants, wd, workers=None, view="View", timeout=3600, xmx="8g",
-           init="Init", nxt="Next", extra_cfg="", simulate=None, seed=None, cont=False):
+           init="Init", nxt="Next", extra_cfg="", simulate=None, seed=None, cont=False, env=None,
+           allow_violation=False):
     """run TLC on spec/<module>.tla with a generated cfg; returns parsed result."""
     cfg = ["CONSTANTS"] + ["  %s = %s" % kv for kv in constants.items()]
     cfg += ["INIT " + init, "NEXT " + nxt]
@@ -114,7 +115,7 @@ def run_mc(module, constants, invariants, wd, workers=None, view="View", timeout
             args = ["-seed", str(seed)] + args
     args.append(os.path.join(SPEC, module + ".tla"))
     t = time.time()
-    rc, out = java_tlc(args, cwd=SPEC, timeout=timeout, xmx=xmx, xss="512m")
+    rc, out = java_tlc(args, cwd=SPEC, timeout=timeout, xmx=xmx, xss="512m", env=env)
     outp = os.path.join(wd, module + ".out")
     open(outp, "w").write(out)
     res = {"rc": rc, "out": outp, "wall": time.time() - t, "replay": [], "probes": None,
